@@ -29,7 +29,7 @@ from props import plans  # noqa: E402  (pure python)
 # under load), no further chunk of runs is handed out and the check reports on
 # what was explored (evidence: runs < planned, "truncated_by_time_budget").  A
 # batch that makes no progress for much longer is a hang: harness error.
-TIME_BUDGET = {"quick": 240, "thorough": 2400}
+TIME_BUDGET = {"quick": 240, "thorough": 1500}
 HARD_LIMIT = {"quick": 1500, "thorough": 9000}
 
 
